@@ -40,6 +40,10 @@ func (frame *SynReplyFrame) read(h ControlFrameHeader, f *Framer) error {
 
 func (frame *RstStreamFrame) read(h ControlFrameHeader, f *Framer) error {
 	frame.CFHeader = h
+	if h.length != 8 {
+		// fixed-size frame: a different length would shift the next frame boundary
+		return &Error{InvalidControlFrame, 0}
+	}
 	if err := binary.Read(f.r, binary.BigEndian, &frame.StreamId); err != nil {
 		return err
 	}
@@ -65,6 +69,9 @@ func (frame *SettingsFrame) read(h ControlFrameHeader, f *Framer) error {
 	if numSettings > MaxNumSettings {
 		return fmt.Errorf("SettingsFrame with invalid numSettings: %d", numSettings)
 	}
+	if uint64(h.length) != 4+8*uint64(numSettings) {
+		return &Error{InvalidControlFrame, 0}
+	}
 
 	frame.FlagIdValues = make([]SettingsFlagIdValue, numSettings)
 	for i := uint32(0); i < numSettings; i++ {
@@ -82,6 +89,9 @@ func (frame *SettingsFrame) read(h ControlFrameHeader, f *Framer) error {
 
 func (frame *PingFrame) read(h ControlFrameHeader, f *Framer) error {
 	frame.CFHeader = h
+	if h.length != 4 {
+		return &Error{InvalidControlFrame, 0}
+	}
 	if err := binary.Read(f.r, binary.BigEndian, &frame.Id); err != nil {
 		return err
 	}
@@ -206,6 +216,34 @@ func (f *Framer) parseControlFrame(version uint16, frameType ControlFrameType) (
 	return cframe, nil
 }
 
+// readBounded reads exactly length bytes like io.ReadFull, but never allocates
+// more than one chunk beyond what the reader has actually delivered: length is a
+// 32-bit field chosen by the peer.
+func readBounded(r io.Reader, length uint32) ([]byte, error) {
+	const chunk = 4096
+	if length <= chunk {
+		b := make([]byte, length)
+		_, err := io.ReadFull(r, b)
+		return b, err
+	}
+	out := make([]byte, 0, chunk)
+	for uint32(len(out)) < length {
+		n := length - uint32(len(out))
+		if n > chunk {
+			n = chunk
+		}
+		old := len(out)
+		out = append(out, make([]byte, n)...)
+		if _, err := io.ReadFull(r, out[old:]); err != nil {
+			if err == io.EOF && old > 0 {
+				err = io.ErrUnexpectedEOF
+			}
+			return nil, err
+		}
+	}
+	return out, nil
+}
+
 func parseHeaderValueBlock(r io.Reader, streamId StreamId) (http.Header, uint32, error) {
 	headerLen := uint32(0) // length of header decompressed
 
@@ -225,8 +263,8 @@ func parseHeaderValueBlock(r io.Reader, streamId StreamId) (http.Header, uint32,
 			return nil, 0, err
 		}
 		headerLen += length
-		nameBytes := make([]byte, length)
-		if _, err := io.ReadFull(r, nameBytes); err != nil {
+		nameBytes, err := readBounded(r, length)
+		if err != nil {
 			return nil, 0, err
 		}
 		name := string(nameBytes)
@@ -241,8 +279,8 @@ func parseHeaderValueBlock(r io.Reader, streamId StreamId) (http.Header, uint32,
 			return nil, 0, err
 		}
 		headerLen += length
-		value := make([]byte, length)
-		if _, err := io.ReadFull(r, value); err != nil {
+		value, err := readBounded(r, length)
+		if err != nil {
 			return nil, 0, err
 		}
 		valueList := strings.Split(string(value), headerValueSeparator)
@@ -261,6 +299,10 @@ func (f *Framer) readSynStreamFrame(h ControlFrameHeader, frame *SynStreamFrame)
 	frame.CFHeader = h
 	var headerLen uint32 // length of header decompressed
 	var err error
+	if h.length < 10 {
+		// shorter than the fixed part: h.length - 10 would wrap around
+		return &Error{InvalidControlFrame, 0}
+	}
 	if err = binary.Read(f.r, binary.BigEndian, &frame.StreamId); err != nil {
 		return err
 	}
@@ -315,6 +357,9 @@ func (f *Framer) readSynStreamFrame(h ControlFrameHeader, frame *SynStreamFrame)
 func (f *Framer) readSynReplyFrame(h ControlFrameHeader, frame *SynReplyFrame) error {
 	frame.CFHeader = h
 	var err error
+	if h.length < 4 {
+		return &Error{InvalidControlFrame, 0}
+	}
 	if err = binary.Read(f.r, binary.BigEndian, &frame.StreamId); err != nil {
 		return err
 	}
@@ -365,6 +410,9 @@ func (f *Framer) checkHeaderFieldLimit(header http.Header) error {
 func (f *Framer) readHeadersFrame(h ControlFrameHeader, frame *HeadersFrame) error {
 	frame.CFHeader = h
 	var err error
+	if h.length < 4 {
+		return &Error{InvalidControlFrame, 0}
+	}
 	if err = binary.Read(f.r, binary.BigEndian, &frame.StreamId); err != nil {
 		return err
 	}
